@@ -40,6 +40,10 @@ func (c04Format) BucketOf(nb uint32, key []byte) uint {
 	return h.BucketHash(key)
 }
 
+func (c04Format) EntryHash(domain uint32, key []byte) uint64 {
+	return EntryHash64(domain, key) & 0xffffff
+}
+
 func (c04Format) FixValue(valueSize, variant int, raw []byte) []byte { return raw }
 
 func (c04Format) IsNotFound(err error) bool { return IsNotFound(err) }
@@ -54,12 +58,12 @@ func (c04Format) NewBuilder(tmpDir string, declared uint, valueSize, variant int
 	return &c04Builder{b}, nil
 }
 
-func (w *c04Builder) NumBuckets() uint32              { return w.b.Header.NumBuckets }
-func (w *c04Builder) AddMeta(k, v []byte) error       { return w.b.Metadata().Add(k, v) }
-func (w *c04Builder) SetKind(kind []byte) error       { return w.b.SetKind(kind) }
-func (w *c04Builder) Insert(key, value []byte) error  { return w.b.Insert(key, value) }
+func (w *c04Builder) NumBuckets() uint32                         { return w.b.Header.NumBuckets }
+func (w *c04Builder) AddMeta(k, v []byte) error                  { return w.b.Metadata().Add(k, v) }
+func (w *c04Builder) SetKind(kind []byte) error                  { return w.b.SetKind(kind) }
+func (w *c04Builder) Insert(key, value []byte) error             { return w.b.Insert(key, value) }
 func (w *c04Builder) Seal(ctx context.Context, f *os.File) error { return w.b.Seal(ctx, f) }
-func (w *c04Builder) Close() error                    { return w.b.Close() }
+func (w *c04Builder) Close() error                               { return w.b.Close() }
 
 type c04DB struct{ db *DB }
 
@@ -71,7 +75,7 @@ func (c04Format) Open(r io.ReaderAt) (c04eng.DB, error) {
 	return &c04DB{db}, nil
 }
 
-func (d *c04DB) Prefetch(b bool)                    { d.db.Prefetch(b) }
+func (d *c04DB) Prefetch(b bool)                   { d.db.Prefetch(b) }
 func (d *c04DB) Lookup(key []byte) ([]byte, error) { return d.db.Lookup(key) }
 func (d *c04DB) Meta() [][2][]byte {
 	var out [][2][]byte
